@@ -143,7 +143,7 @@ class Axis(GetSetDelAttrMixin, AbstractAxis):
     def sort(self, *args, **kwargs):
         # in-place sort
         self._values.sort(*args, **kwargs)
-        self._monotonic = True
+        self._monotonic = None # sorted, but not monotonic (strictly) if there are duplicate labels
 
     def __getitem__(self, item):
         """ access values elements & return an axis object
